@@ -1,0 +1,60 @@
+//go:build verif
+// +build verif
+
+package config
+
+import (
+	"context"
+
+	"github.com/samaritan-proxy/samaritan/pb/config/service"
+)
+
+// This file is only compiled with -tags verif. Re-exports for the verification
+// harness under /verif; it adds no behaviour.
+
+// VerifDependencyUpdate is handleDependencyUpdate.
+func (c *Config) VerifDependencyUpdate(added, removed []*service.Service) {
+	c.handleDependencyUpdate(added, removed)
+}
+
+// VerifSvcConfigUpdate is handleSvcConfigUpdate.
+func (c *Config) VerifSvcConfigUpdate(svcName string, newCfg *service.Config) {
+	c.handleSvcConfigUpdate(svcName, newCfg)
+}
+
+// VerifSvcEndpointUpdate is handleSvcEndpointUpdate.
+func (c *Config) VerifSvcEndpointUpdate(svcName string, added, removed []*service.Endpoint) {
+	c.handleSvcEndpointUpdate(svcName, added, removed)
+}
+
+// VerifStream is the stream a service discovery client talks to.
+type VerifStream interface {
+	Send(subscribed, unsubscribed []string) error
+	Recv() error
+}
+
+// VerifSvcDiscoveryClient wraps the real svcDiscoveryClient.
+type VerifSvcDiscoveryClient struct{ c *svcDiscoveryClient }
+
+// VerifNewSvcDiscoveryClient creates the real client over a scripted stream factory.
+func VerifNewSvcDiscoveryClient(scope string, maker func(ctx context.Context) (VerifStream, error)) *VerifSvcDiscoveryClient {
+	return &VerifSvcDiscoveryClient{c: newSvcDiscoveryClient(scope, func(ctx context.Context) (svcDiscoveryStream, error) {
+		s, err := maker(ctx)
+		if err != nil {
+			return nil, err
+		}
+		return s, nil
+	})}
+}
+
+// Subscribe is svcDiscoveryClient.Subscribe.
+func (v *VerifSvcDiscoveryClient) Subscribe(name string) { v.c.Subscribe(name) }
+
+// Unsubscribe is svcDiscoveryClient.Unsubscribe.
+func (v *VerifSvcDiscoveryClient) Unsubscribe(name string) { v.c.Unsubscribe(name) }
+
+// Run is svcDiscoveryClient.Run (with its built-in back-off).
+func (v *VerifSvcDiscoveryClient) Run(ctx context.Context) { v.c.Run(ctx) }
+
+// RunOnce is one iteration of the retry loop: svcDiscoveryClient.run.
+func (v *VerifSvcDiscoveryClient) RunOnce(ctx context.Context) { v.c.run(ctx) }
